@@ -2,7 +2,8 @@
 //! scylla-cql-core on them and writes "<case> | <observed>" lines for the extracted model.
 //!
 //! Kinds: R dynamic path (CqlValue), T typed Rust carriers, V/Q typed Vec<Option<T>> bound to
-//! vector / list, D arbitrary bytes decoded as a cell, N vint codec.  See ocaml/c01/driver.ml.
+//! vector / list, E a typed carrier's own decoder on arbitrary bytes, D arbitrary bytes decoded as a
+//! cell by the dynamic decoder, N vint codec.  See ocaml/c01/driver.ml.
 #[path = "../c01_text.rs"]
 mod text;
 #[path = "../c01_typed.rs"]
